@@ -308,6 +308,9 @@ enum Fail {
     Eof,
     Disable,
     RemoveAssociation,
+    /// the reply is lost while unrelated traffic (a response with a stale sequence number) keeps
+    /// arriving more often than one response timeout
+    NoisyTimeout,
 }
 
 struct FileLog {
@@ -407,7 +410,7 @@ fn build_outcomes() -> Outcomes {
     let mut cases = Vec::new();
     for k in 0..KINDS {
         cases.push((k, Fail::None, 0));
-        for f in [Fail::Timeout, Fail::Eof, Fail::Disable, Fail::RemoveAssociation] {
+        for f in [Fail::Timeout, Fail::Eof, Fail::Disable, Fail::RemoveAssociation, Fail::NoisyTimeout] {
             for step in 0..4 {
                 cases.push((k, f, step));
             }
@@ -486,7 +489,7 @@ impl CaseSpace for Outcomes {
                         if fail != Fail::None && steps_done == at_step && !injected {
                             injected = true;
                             match fail {
-                                Fail::Timeout => {}
+                                Fail::Timeout | Fail::NoisyTimeout => {}
                                 Fail::Eof => sim.disconnect(),
                                 Fail::Disable => {
                                     let mut ch = sim.channel.clone();
@@ -536,7 +539,19 @@ impl CaseSpace for Outcomes {
         }
         // bounded wait: every protocol step may use up one response timeout
         let bound = (steps_done as u64 + 2) * RT + 100;
-        sim.advance(bound);
+        if fail == Fail::NoisyTimeout && injected {
+            let mut waited = 0u64;
+            while waited < bound {
+                let step = (RT * 6 / 10).min(bound - waited);
+                sim.advance(step);
+                waited += step;
+                // a well-formed response whose sequence number matches nothing outstanding
+                sim.respond(&app::response(app::ctrl(true, true, false, false, 9), fc::RESPONSE, 0, 0, &[]));
+                sim.take_out();
+            }
+        } else {
+            sim.advance(bound);
+        }
         let elapsed = sim.k.now_ms() - t_start;
         let (cbs, _) = sim.take_cb();
         let done: Vec<&String> = cbs.iter().filter_map(|c| if let MCb::Done(n, r) = c { if n == name { Some(r) } else { None } } else { None }).collect();
@@ -582,6 +597,105 @@ impl CaseSpace for Outcomes {
         }
         res.model_states.push((k * 8 + fail as usize) as u64);
         res.nontrivial = true;
+        res
+    }
+}
+
+/// every ordered pair (and triple) of command kinds added to one CommandBuilder without an
+/// explicit finish_header: the request on the wire carries every requested object, in order
+struct Builder;
+
+const BKINDS: usize = 10; // 5 object types x {8-bit, 16-bit index}
+
+fn add_kind(b: &mut CommandBuilder, k: usize, n: u16) -> (u8, u8, bool, u16, Vec<u8>) {
+    let wide = k % 2 == 1;
+    let idx: u16 = if wide { 300 + n } else { 3 + n };
+    let (g, v, data): (u8, u8, Vec<u8>) = match k / 2 {
+        0 => {
+            let c = crob(n as u32);
+            if wide { b.add_u16(c, idx) } else { b.add_u8(c, idx as u8) }
+            (12, 1, app::crob(0x03, 1, 100 + n as u32, 200, 0))
+        }
+        1 => {
+            let c = Group41Var1::new(1000 + n as i32);
+            if wide { b.add_u16(c, idx) } else { b.add_u8(c, idx as u8) }
+            (41, 1, app::g41v1(1000 + n as i32, 0))
+        }
+        2 => {
+            let c = Group41Var2::new(-7 + n as i16);
+            if wide { b.add_u16(c, idx) } else { b.add_u8(c, idx as u8) }
+            (41, 2, app::g41v2(-7 + n as i16, 0))
+        }
+        3 => {
+            let c = Group41Var3::new(1.5 + n as f32);
+            if wide { b.add_u16(c, idx) } else { b.add_u8(c, idx as u8) }
+            (41, 3, app::g41v3(1.5 + n as f32, 0))
+        }
+        _ => {
+            let c = Group41Var4::new(-2.5 + n as f64);
+            if wide { b.add_u16(c, idx) } else { b.add_u8(c, idx as u8) }
+            (41, 4, app::g41v4(-2.5 + n as f64, 0))
+        }
+    };
+    (g, v, wide, idx, data)
+}
+
+impl CaseSpace for Builder {
+    fn name(&self) -> String {
+        "command-builder-carries-every-object".to_string()
+    }
+    fn total(&self) -> usize {
+        BKINDS * BKINDS + BKINDS * BKINDS * BKINDS
+    }
+    fn run(&self, index: usize, transcript: bool) -> RunResult {
+        let mut res = RunResult::default();
+        let kinds: Vec<usize> = if index < BKINDS * BKINDS {
+            vec![index / BKINDS, index % BKINDS]
+        } else {
+            let i = index - BKINDS * BKINDS;
+            vec![i / (BKINDS * BKINDS), (i / BKINDS) % BKINDS, i % BKINDS]
+        };
+        res.obs = index as u64 + 414141;
+        let mut b = CommandBuilder::new();
+        let mut want: Vec<(u8, u8, bool, u16, Vec<u8>)> = Vec::new();
+        for (n, k) in kinds.iter().enumerate() {
+            want.push(add_kind(&mut b, *k, n as u16));
+        }
+        let headers = b.build();
+        let mut sim = MSim::new(&MCfg::default(), 1);
+        let Some(a) = sim.add_association(OUTSTATION_ADDR, quiet()) else { return res };
+        sim.take_out();
+        let mut a2 = a.clone();
+        sim.call("cmd", async move { a2.operate(CommandMode::DirectOperate, headers).await });
+        let Some(req) = first_request(&mut sim) else {
+            res.violation = Some(Violation::new("C16.B0", "no-request-written", format!("kinds {kinds:?}")));
+            return res;
+        };
+        res.transitions += 1;
+        let key = format!("kinds:{}", kinds.iter().map(|k| format!("{}{}", ["g12v1", "g41v1", "g41v2", "g41v3", "g41v4"][k / 2], if k % 2 == 1 { "/16" } else { "/8" })).collect::<Vec<_>>().join("+"));
+        let got: Vec<(u8, u8, bool, u16, Vec<u8>)> = match app::walk(&req[2..], false) {
+            Ok(hs) => hs
+                .iter()
+                .flat_map(|h| h.objects.iter().map(move |o| (h.group, h.var, h.qual == 0x28, o.index.unwrap_or(0) as u16, o.data.clone())))
+                .collect(),
+            Err(e) => {
+                res.violation = Some(Violation::new("C16.B1", key, format!("request does not decode: {e:?}: {}", app::hex(&req))));
+                return res;
+            }
+        };
+        if transcript {
+            res.transcript.push(format!("{key}: request {}", app::hex(&req)));
+        }
+        if got != want {
+            res.violation = Some(Violation::new(
+                "C16.B2",
+                key,
+                format!("the request carries {} of the {} objects added to the builder: {}", got.len(), want.len(), app::hex(&req)),
+            ));
+            return res;
+        }
+        res.nontrivial = true;
+        res.model_states.push(index as u64 + 5000);
         res
     }
 }
@@ -684,6 +798,9 @@ pub fn replay(name: &str, path: &[usize]) -> Option<RunResult> {
     if Queued.name() == name {
         return Some(Queued.run(path[0], true));
     }
+    if Builder.name() == name {
+        return Some(Builder.run(path[0], true));
+    }
     for tier in ["quick", "thorough"] {
         let e = build_echo(tier);
         if e.name() == name && path[0] < e.total() {
@@ -702,6 +819,7 @@ pub fn check(tier: &str) -> i32 {
     c.cases(&build_echo(tier));
     c.cases(&build_outcomes());
     c.cases(&Queued);
+    c.cases(&Builder);
     c.finish(
         "model_checking",
         "(1) 15 command sets (g12v1, g41v1..4 x {one object 8-bit index, two objects 16-bit index, two headers}) x {DIRECT_OPERATE, SELECT step, OPERATE step} x the faithful echo and every single mutation of it (every byte +-1, every status code in every object, header dropped / duplicated / appended, object dropped / added / reordered, empty reply): success must be reported iff the echo is faithful, OPERATE must follow only a faithful SELECT echo with the next sequence number and identical objects; (2) 18 request kinds (read, read with handler, direct and select-before-operate commands, LAN and non-LAN time synchronisation, cold / warm restart, dead-band write, empty-response request, link status check, file authentication / open / write block / close / info, directory read, file read with a FileReader) x {no failure, reply lost, connection lost, channel disabled, association removed} x failure at protocol step 0..3, plus a full request queue: the user future (or the FileReader's terminal callback) fires exactly once, with an error iff a failure was injected, within (steps + 2) response timeouts; non-trivial = the case ran to a verdict; distinct = distinct case",
